@@ -79,6 +79,9 @@ def post(sim, h):
 
     V = []
     for st, step, name in sim.alias_violations[:1]:
+        if st == "seed":
+            V.append(Violation("state-mutated-in-place", f"the run wrote into '{name}' of the Solution it was seeded with: the record of the finished run it continues has been altered", quantity=name, seed=True))
+            continue
         V.append(Violation("state-mutated-in-place", f"update {st}{step} modified the array of '{name}' it was handed in place: the reported psi^n is no longer the state the step started from", quantity=name))
     return V
 
